@@ -371,9 +371,9 @@ class Exec:
             m = re.match(r"^drop\(.*\) -> \[return: (bb\d+), unwind.*\]$", st)
             if m:
                 return self._block(m.group(1), env, pc, steps + 1)
-            m = re.match(r"^(?:(.*?) = )?([^=]*?)\((.*)\) -> (\[return: (bb\d+), unwind.*\]|unwind .*)$", st)
-            if m and not st.startswith("assert("):
-                dst, callee, args, _, ret = m.groups()
+            m = _parse_call(st) if not st.startswith("assert(") else None
+            if m:
+                dst, callee, args, ret = m
                 argv = [self.operand(env, a) for a in split_top(args)] if args.strip() else []
                 if ret is None:
                     # diverging call (panic): reaching it is a violation
@@ -423,6 +423,40 @@ class Exec:
         if v[0] in ("bv", "bool"):
             return self.ctx.key_of(v[1]) if re.match(r"^v\d+$", v[1]) else v[1]
         return "(" + ",".join(self.key(x) for x in v[1]) + ")"
+
+
+def _parse_call(st):
+    """`[dst = ]callee(args) -> [return: bbN, unwind ..]` or `... -> unwind ..` (diverging).
+    The argument list is the balanced parenthesis group that ends right before ` -> `."""
+    m = re.match(r"^(.*)\) -> (\[return: (bb\d+), unwind.*\]|unwind .*)$", st)
+    if not m:
+        return None
+    head, ret = m.group(1), m.group(3)
+    depth, i, instr = 1, len(head) - 1, False
+    while i >= 0:
+        c = head[i]
+        if c == '"' and (i == 0 or head[i - 1] != "\\"):
+            instr = not instr
+        elif not instr:
+            if c == ")":
+                depth += 1
+            elif c == "(":
+                depth -= 1
+                if depth == 0:
+                    break
+        i -= 1
+    if i < 0:
+        return None
+    args = head[i + 1:]
+    left = head[:i]
+    dm = re.match(r"^(_\d+|\(.*?\)) = (.*)$", left)
+    if dm and not re.match(r"^[\w:<>]", dm.group(1)[0:1] if False else "_"):
+        pass
+    if dm:
+        dst, callee = dm.group(1), dm.group(2)
+    else:
+        dst, callee = None, left
+    return dst, callee, args, ret
 
 
 def script(ctx, pc, neg, extra=()):
